@@ -1,2 +1,257 @@
-import TongoModel.Hashmap
-/-! Property C05 — placeholder, theorems follow. -/
+import TongoProofs.Lemmas.HashmapEncode
+import TongoProofs.Lemmas.HashmapPut
+/-! # Property C05 — dictionaries (Hashmap / HashmapE) preserve their key→value mapping
+
+Model: `TongoModel/Hashmap.lean` (mirror of tlb/hashmap.go after the repairs recorded in known_findings.txt).
+Keys are the encoded key bits (width `n` = FixedSize of the key type), values are abstract: `C : Codec V` is what
+Marshal/Unmarshal of the value type do at the end of a leaf cell, `pay v` the bits and refs of value `v`.
+
+Hypotheses used below (all satisfiable, see the examples at the end):
+* `DecodesPayload C pay` : the value decoder reads back `pay v`;
+* `Fits C pay n v`       : the value encoder produces `pay v` and the leaf has room for it next to a full-width label;
+* `SortedKV kvs`         : entries listed in strictly ascending order of key bits (`lexLt`);
+* `HTree.Valid n t`      : `t` is a TL-B `Hashmap n X` tree, any of hml_short / hml_long / hml_same on any edge.
+-/
+namespace Tongo.C05
+open Tongo Tongo.Hashmap
+
+variable {V : Type}
+
+/-- the HashmapE cell around a dictionary root: `hme_root$1 root:^(Hashmap n X)` -/
+def wrapE (root : Cell) : Cell := Cell.ordinary [true] [root]
+
+/-- On a non-empty list of distinct `n`-bit keys in ascending bit order, `encodeMap` succeeds and writes the cell tree of
+a valid `Hashmap n X` (with the label forms tongo picks) whose meaning is exactly the list. Covers every shape: single
+key, keys differing only in the last bit, `n = 1`, labels on both sides of the 8-bit short/long threshold. -/
+theorem encode_sorted_tree (C : Codec V) (pay : V → List Bool × List Cell) (n : Nat) (kvs : List (Key × V))
+    (hne : kvs ≠ []) (hw : ∀ kv ∈ kvs, kv.1.length = n) (hs : SortedKV kvs) (hfit : ∀ kv ∈ kvs, Fits C pay n kv.2) :
+    ∃ t : HTree V, t.Valid n ∧ t.meaning = kvs ∧ encodeMap C (n + 1) kvs (n : Int) = .ok (t.toCell pay n) :=
+  encodeMap_sorted C pay n (n + 1) n kvs (Nat.le_refl n) (Nat.lt_succ_self n) hne hw hs hfit
+
+theorem width_lt_of_fits (C : Codec V) (pay : V → List Bool × List Cell) (n : Nat) (v : V) (h : Fits C pay n v) :
+    n < 2 ^ 64 := by
+  have := h.2.1
+  omega
+
+/-- decode ∘ encode = id on sorted input: `Hashmap.UnmarshalTLB` of what `encodeMap` wrote returns the same keys and
+values in the same (ascending key-bit) order. -/
+theorem decode_encode_sorted (C : Codec V) (pay : V → List Bool × List Cell) (n : Nat) (kvs : List (Key × V))
+    (hne : kvs ≠ []) (hw : ∀ kv ∈ kvs, kv.1.length = n) (hs : SortedKV kvs) (hfit : ∀ kv ∈ kvs, Fits C pay n kv.2)
+    (hdec : DecodesPayload C pay) :
+    ∃ c, encodeMap C (n + 1) kvs (n : Int) = .ok c ∧ unmarshal C n c = .ok kvs := by
+  obtain ⟨t, hv, hm, he⟩ := encode_sorted_tree C pay n kvs hne hw hs hfit
+  refine ⟨t.toCell pay n, he, ?_⟩
+  obtain ⟨x, hx⟩ := List.exists_mem_of_ne_nil kvs hne
+  have hn := width_lt_of_fits C pay n x.2 (hfit x hx)
+  unfold unmarshal
+  rw [toCell_ty]
+  have h0 : ¬ ((0 : Nat) = tyLibrary) := by decide
+  simp only [h0, if_false]
+  rw [mapInner_toCell C pay hdec n hn t n [] (n + 1) hv (by simp) (Nat.lt_succ_self n), ← hm]
+  simp
+
+/-- Every valid TON dictionary — any mix of the three label forms, e.g. written by another implementation — decodes
+(through the `HashmapE` wrapper) to the mapping it represents, listed in strictly ascending order of key bits, every
+key of width `n`. -/
+theorem decode_any_valid (C : Codec V) (pay : V → List Bool × List Cell) (hdec : DecodesPayload C pay) (n : Nat)
+    (hn : n < 2 ^ 64) (t : HTree V) (hv : t.Valid n) :
+    unmarshalE C n (wrapE (t.toCell pay n)) = .ok t.meaning ∧ SortedKV t.meaning ∧
+      ∀ kv ∈ t.meaning, kv.1.length = n := by
+  refine ⟨?_, meaning_sorted t n hv, meaning_key_length t n hv⟩
+  have h0 : ¬ ((0 : Nat) = tyLibrary) := by decide
+  have h1 : ¬ ((0 : Nat) = tyPruned) := by decide
+  simp only [unmarshalE, wrapE, ty_ordinary, bits_ordinary, refs_ordinary, h0, if_false, unmarshal, toCell_ty, h1]
+  rw [mapInner_toCell C pay hdec n hn t n [] (n + 1) hv (by simp) (Nat.lt_succ_self n)]
+  simp
+
+/-- the empty dictionary is the single bit 0 and decodes to no entries -/
+theorem decode_empty (C : Codec V) (n : Nat) : unmarshalE C n (Cell.ordinary [false] []) = .ok [] := by
+  have h0 : ¬ ((0 : Nat) = tyLibrary) := by decide
+  simp [unmarshalE, h0]
+
+/-- `HashmapE` round trip for ANY slice order of distinct keys: Marshal (which orders the entries by key bits) followed
+by Unmarshal returns the same entries in ascending key-bit order; the empty dictionary is the single bit 0. -/
+theorem hashmapE_roundtrip (C : Codec V) (pay : V → List Bool × List Cell) (n : Nat) (kvs : List (Key × V))
+    (hnd : (keysOf kvs).Nodup) (hw : ∀ kv ∈ kvs, kv.1.length = n) (hfit : ∀ kv ∈ kvs, Fits C pay n kv.2)
+    (hdec : DecodesPayload C pay) :
+    (kvs = [] → marshalE C n kvs = .ok (Cell.ordinary [false] [])) ∧
+    ∃ c, marshalE C n kvs = .ok c ∧ unmarshalE C n c = .ok (sortKV kvs) ∧ SortedKV (sortKV kvs) := by
+  constructor
+  · intro h; subst h; rfl
+  · have hwk : ∀ k ∈ keysOf kvs, k.length = n := by
+      intro k hk
+      obtain ⟨x, hx, rfl⟩ := List.mem_map.mp hk
+      exact hw x hx
+    have hsorted := sortKV_sorted n kvs hnd hwk
+    cases kvs with
+    | nil => exact ⟨Cell.ordinary [false] [], rfl, by simpa [sortKV] using decode_empty C n, hsorted⟩
+    | cons x rest =>
+      have hp := sortKV_perm (x :: rest)
+      have hne : sortKV (x :: rest) ≠ [] := by
+        intro h; rw [h] at hp; exact absurd hp.symm (by simp)
+      obtain ⟨t, hv, hm, he⟩ := encode_sorted_tree C pay n (sortKV (x :: rest)) hne
+        (fun kv hkv => hw kv (hp.mem_iff.mp hkv)) hsorted (fun kv hkv => hfit kv (hp.mem_iff.mp hkv))
+      have hn := width_lt_of_fits C pay n x.2 (hfit x (by simp))
+      have hmax : maxKeyLen (x :: rest) = n := maxKeyLen_eq n _ (by simp) hw
+      refine ⟨wrapE (t.toCell pay n), ?_, ?_, hsorted⟩
+      · simp [marshalE, marshal, hmax, he, wrapE]
+      · rw [(decode_any_valid C pay hdec n hn t hv).1, hm]
+
+/-- `Put` keeps the slice ordered by the key family's `Compare` (strict, hence duplicate-free), and keeps key widths. -/
+theorem put_sorted (lt : Key → Key → Bool) (n : Nat) (hlt : StrictTotalOn lt n) (d : List (Key × V)) (k : Key) (v : V)
+    (hk : k.length = n) (hs : SortedBy lt d) (hw : ∀ x ∈ keysOf d, x.length = n) :
+    SortedBy lt (put lt d k v) ∧ (keysOf (put lt d k v)).Nodup ∧ ∀ x ∈ keysOf (put lt d k v), x.length = n := by
+  have h := put_sortedBy lt n hlt d k v hk hs hw
+  refine ⟨h, sortedBy_nodup lt hlt.irrefl _ h, ?_⟩
+  intro x hx
+  rcases (keysOf_put_mem lt d k v x).mp hx with e | e
+  · rw [e]; exact hk
+  · exact hw x e
+
+/-- the three comparison families of the shipped key types are strict total orders on `n`-bit keys: unsigned numeric
+(UintN, bytes.Compare of BitsN, AddressWithWorkchain), two's complement numeric (IntN), and the bit order itself -/
+theorem compare_families (n : Nat) : StrictTotalOn ltUnsigned n ∧ StrictTotalOn ltSigned n ∧ StrictTotalOn lexLt n :=
+  ⟨strictTotal_ltUnsigned n, strictTotal_ltSigned n, strictTotal_lexLt n⟩
+
+/-- for unsigned / byte-string key families `Compare` order IS the ascending key-bit order -/
+theorem unsigned_order_is_bit_order (a b : Key) (h : a.length = b.length) : ltUnsigned a b = lexLt a b := by
+  have := lexLt_iff_bitsToNat a b h
+  cases hl : lexLt a b
+  · simp only [ltUnsigned, decide_eq_false_iff_not]; intro h2; rw [this.mpr h2] at hl; cases hl
+  · simp only [ltUnsigned, decide_eq_true_eq]; exact this.mp hl
+
+/-- building by `Put` from any permutation of distinct entries gives the same slice (Keys()/Values()/Items() do not
+depend on insertion order) -/
+theorem build_perm (lt : Key → Key → Bool) (n : Nat) (hlt : StrictTotalOn lt n) (ops1 ops2 : List (Key × V))
+    (hp : ops1.Perm ops2) (hnd : (keysOf ops1).Nodup) (hw : ∀ k ∈ keysOf ops1, k.length = n) :
+    buildPut lt ops1 = buildPut lt ops2 := by
+  have hp' := hp.map Prod.fst
+  have hnd2 : (keysOf ops2).Nodup := hp'.nodup hnd
+  have hw2 : ∀ k ∈ keysOf ops2, k.length = n := fun k hk => hw k (hp'.mem_iff.mpr hk)
+  exact sortedBy_perm_eq lt n hlt _ _ (buildPut_sorted lt n hlt ops1 hw).1 (buildPut_sorted lt n hlt ops2 hw2).1
+    (((buildPut_perm lt ops1 hnd).trans hp).trans (buildPut_perm lt ops2 hnd2).symm)
+
+/-- the encoding does not depend on insertion order — for any `Compare` whatsoever, because Marshal orders by key bits -/
+theorem encode_order_independent (C : Codec V) (n : Nat) (lt : Key → Key → Bool) (ops1 ops2 : List (Key × V))
+    (hp : ops1.Perm ops2) (hnd : (keysOf ops1).Nodup) (hw : ∀ k ∈ keysOf ops1, k.length = n) :
+    marshalE C n (buildPut lt ops1) = marshalE C n (buildPut lt ops2) := by
+  have hp' := hp.map Prod.fst
+  have hnd2 : (keysOf ops2).Nodup := hp'.nodup hnd
+  have hb : (buildPut lt ops1).Perm (buildPut lt ops2) :=
+    ((buildPut_perm lt ops1 hnd).trans hp).trans (buildPut_perm lt ops2 hnd2).symm
+  have hb1 := buildPut_perm lt ops1 hnd
+  have hnd1 : (keysOf (buildPut lt ops1)).Nodup := (hb1.map Prod.fst).symm.nodup hnd
+  have hw1 : ∀ k ∈ keysOf (buildPut lt ops1), k.length = n := fun k hk => hw k ((hb1.map Prod.fst).mem_iff.mp hk)
+  have hsort := sortKV_perm_eq n _ _ hb hnd1 hw1
+  cases h1 : buildPut lt ops1 with
+  | nil =>
+    rw [h1] at hb
+    rw [List.Perm.nil_eq hb]
+  | cons x r =>
+    cases h2 : buildPut lt ops2 with
+    | nil => rw [h1, h2] at hb; exact absurd hb (by simp)
+    | cons y r2 =>
+      rw [h1, h2] at hsort
+      have hwx : ∀ kv ∈ x :: r, kv.1.length = n := by
+        intro kv hkv; rw [← h1] at hkv; exact hw1 kv.1 (List.mem_map.mpr ⟨kv, hkv, rfl⟩)
+      have hwy : ∀ kv ∈ y :: r2, kv.1.length = n := by
+        intro kv hkv
+        rw [← h2] at hkv
+        exact hw1 kv.1 (List.mem_map.mpr ⟨kv, hb.mem_iff.mpr hkv, rfl⟩)
+      simp [marshalE, marshal, maxKeyLen_eq n _ (by simp) hwx, maxKeyLen_eq n _ (by simp) hwy, hsort]
+
+/-- lookups on a decoded dictionary agree with the mapping of the tree: `Get k` returns `v` exactly when `(k, v)` is an
+entry of the meaning (and `none` exactly when `k` is not a key) -/
+theorem get_spec (t : HTree V) (n : Nat) (hv : t.Valid n) (k : Key) :
+    (∀ v, get t.meaning k = some v ↔ (k, v) ∈ t.meaning) ∧ (get t.meaning k = none ↔ k ∉ keysOf t.meaning) := by
+  have hnd := sortedBy_nodup lexLt lexLt_irrefl t.meaning (meaning_sorted t n hv)
+  exact ⟨fun v => get_eq_some_iff t.meaning hnd k v, get_eq_none_iff t.meaning k⟩
+
+/-- updates agree with the mapping: after `Put k v` (any slice, any `Compare`) `k ↦ v` and every other key is unchanged -/
+theorem put_spec (lt : Key → Key → Bool) (d : List (Key × V)) (k : Key) (v : V) (k' : Key) :
+    get (put lt d k v) k' = if k' = k then some v else get d k' :=
+  get_put lt d k v k'
+
+/-- `Put` on a DECODED dictionary followed by Marshal / Unmarshal yields the updated mapping in ascending key-bit order —
+for every key family, signed ones included (where Put's position by numeric `Compare` is not the bit-order position). -/
+theorem decode_then_put_encodes (C : Codec V) (pay : V → List Bool × List Cell) (hdec : DecodesPayload C pay) (n : Nat)
+    (lt : Key → Key → Bool) (t : HTree V) (hv : t.Valid n) (k : Key) (v : V) (hk : k.length = n)
+    (hfit : ∀ kv ∈ t.meaning, Fits C pay n kv.2) (hfv : Fits C pay n v) :
+    ∃ c, marshalE C n (put lt t.meaning k v) = .ok c ∧
+      unmarshalE C n c = .ok (sortKV (put lt t.meaning k v)) ∧
+      SortedKV (sortKV (put lt t.meaning k v)) ∧
+      ∀ k', get (sortKV (put lt t.meaning k v)) k' = if k' = k then some v else get t.meaning k' := by
+  have hnd0 := sortedBy_nodup lexLt lexLt_irrefl t.meaning (meaning_sorted t n hv)
+  have hnd := put_nodup lt t.meaning k v hnd0
+  have hw : ∀ kv ∈ put lt t.meaning k v, kv.1.length = n := by
+    intro kv hkv
+    rcases (keysOf_put_mem lt t.meaning k v kv.1).mp (List.mem_map.mpr ⟨kv, hkv, rfl⟩) with e | e
+    · rw [e]; exact hk
+    · obtain ⟨x, hx, hxe⟩ := List.mem_map.mp e
+      rw [← hxe]; exact meaning_key_length t n hv x hx
+  have hf : ∀ kv ∈ put lt t.meaning k v, Fits C pay n kv.2 := by
+    intro kv hkv
+    rcases mem_put lt t.meaning k v kv hkv with e | e
+    · rw [e]; exact hfv
+    · exact hfit kv e
+  obtain ⟨c, h1, h2, h3⟩ := (hashmapE_roundtrip C pay n _ hnd hw hf hdec).2
+  refine ⟨c, h1, h2, h3, ?_⟩
+  intro k'
+  rw [get_perm _ _ (sortKV_perm _) ((sortKV_perm _).map Prod.fst |>.symm.nodup hnd)]
+  exact get_put lt t.meaning k v k'
+
+/-! ## The defect repaired by `fix: Hashmap.MarshalTLB orders entries by their encoded key bits` (DESIGN §9 #10)
+
+`marshalUnsorted` is the encoder as it was before the repair: `encodeMap` applied to the slice order. The witness is
+`HashmapE[Int8, Uint32]` with keys {0, 1, −2, −1}: decoded in bit order [0, 1, −2, −1], then `Put(2)` (numeric
+`Compare`) appends 2 at the end. Replayed on the Go code by corpus/C05/defects.ops. -/
+
+/-- Uint32-like value codec used by the witnesses and examples: 32 bits, no refs -/
+def u32Codec : Codec (List Bool) where
+  enc v := .ok (v, [])
+  dec bits _ := if bits.length < 32 then .err "not enough bits" else .ok (bits.take 32)
+
+def i8 (v : Int) : Key := Bits.intToBits 8 v
+def u32 (v : Nat) : List Bool := Bits.natToBits 32 v
+
+/-- the decoded dictionary {0,1,−2,−1} (bit order) after Put(2) under the signed Compare -/
+def witness : List (Key × List Bool) :=
+  put ltSigned [(i8 0, u32 100), (i8 1, u32 101), (i8 (-2), u32 98), (i8 (-1), u32 99)] (i8 2) (u32 7)
+
+/-- NEGATION on the pre-repair encoder: `decode_then_put_encodes` was false for signed key types — re-encoding the
+witness fails (Go: "not enough bits"). -/
+theorem decode_then_put_unsorted_fails : (marshalUnsorted u32Codec 8 witness).isOk = false := by decide
+
+/-- …and on the repaired encoder the same witness encodes and decodes to the updated mapping. -/
+theorem decode_then_put_witness_ok :
+    (match marshalE u32Codec 8 witness with
+     | .ok c => unmarshalE u32Codec 8 c
+     | _ => .err "") = .ok [(i8 0, u32 100), (i8 1, u32 101), (i8 2, u32 7), (i8 (-2), u32 98), (i8 (-1), u32 99)] := by
+  decide
+
+/-! ## Non-vacuity: the hypotheses are satisfiable by non-trivial values -/
+
+def u32Pay (v : List Bool) : List Bool × List Cell := (v, [])
+
+/-- the example codec decodes what it encodes, for 32-bit values -/
+example : ∀ v : List Bool, v.length = 32 → u32Codec.dec (u32Pay v).1 (u32Pay v).2 = .ok v := by
+  intro v hv
+  simp [u32Codec, u32Pay, hv, List.take_of_length_le (Nat.le_of_eq hv)]
+
+example : Fits u32Codec u32Pay 8 (u32 5) := by
+  refine ⟨rfl, ?_, ?_⟩ <;> decide
+
+example : SortedKV [(i8 0, u32 1), (i8 1, u32 2), (i8 (-2), u32 3), (i8 (-1), u32 4)] := by
+  unfold SortedKV; decide
+
+/-- a valid `Hashmap 8` tree using all three label forms: hml_same 6 zero bits, then 0 → {hml_long [], hml_short [1]} -/
+def exampleTree : HTree (List Bool) :=
+  .fork (.same false 6) (.leaf (.long [false]) (u32 10)) (.leaf (.short [true]) (u32 11))
+
+example : exampleTree.Valid 8 := by simp [exampleTree, HTree.Valid, Lbl.bits]
+
+/-- test on literals: the example tree decodes to its meaning (keys 0 and 3) -/
+example : unmarshalE u32Codec 8 (wrapE (exampleTree.toCell u32Pay 8)) = .ok [(i8 0, u32 10), (i8 3, u32 11)] := by
+  decide
+
+end Tongo.C05
